@@ -493,14 +493,15 @@ def run(chk):
         chk.corr.setdefault('translate_c14', {'evaluations': 1, 'disagreements': 1, 'samples': []})
     else:
         chk.notes.append({'generated_table': 'source (exact decimal texts of data/chem.txt, constants.py)'})
-    ok = chk.lean_build(['PeptVerif.Props.C14'], DRV)
+    ok = chk.lean_build(['PeptVerif.Props.C14', 'PeptVerif.Props.C14Ext'], DRV)
     chk.trusted += [
         'translate_c14.py: exact decimal texts of data/chem.txt -> Generated/IsotopesC14.lean; its table is compared on every run '
         'with peptacular.constants (masses, abundances, neutron offsets, monoisotopic masses, particle masses) as floats',
         'modelled: _convolve_distributions, _calculate_elemental_distribution, isotopic_distribution (incl. _fix_chemical_formula(False), '
         'chem_mass monoisotopic, _scale_isotope_abundances), merge_isotopic_distributions; round() is round-half-even on the exact value; '
         'not modelled: estimate_comp (its output composition is fed to the model), warnings, float rounding error (tolerances below)',
-        'theorems are about the model with floor = none and resolution = none (no pruning, no rounding); the effect of the 1e-8 floor and '
+        'theorems of Props/C14 are about the model with floor = none and resolution = none (no pruning, no rounding); Props/C14Ext bounds the effect '
+        'of thresholds / floor / rounding per step (loss <= n1*n2*theta, total unchanged by rounding, mean shift <= half a bin width); the accumulated effect of the 1e-8 floor and '
         'of rounding on the proved identities is checked by the oracle on the real code only (tolerances 1e-6 relative / 1e-5 Da + rounding allowance)',
     ]
     chk.assumptions += [
@@ -1035,10 +1036,85 @@ def run(chk):
     chk.oracle('estimate_is_distribution_of_estimate_comp', est, o_est, key_fn=lambda c: repr(c))
 
     tick('merge/estimate oracles')
+    # ---------------------------------------------------------------- (ext, round 5; placed last so that the random stream of the stages above is unchanged) the bounds of Props/C14Ext.lean evaluated on the code
+    # (conv_prune_loss_bound, conv_round_preserves_total, conv_round_moment_shift on the binary-exact cases above: exact comparison)
+    def o_prune_round(c):
+        d1, d2, _mi, thr, res = c
+        conv = isotope._convolve_distributions
+        F = Fraction
+        tot = lambda d: sum((F(x) for x in d.values()), F(0))
+        mom = lambda d: sum((F(k) * F(x) for k, x in d.items()), F(0))
+        full = conv(dict(d1), dict(d2), None, None, None)
+        pruned = conv(dict(d1), dict(d2), None, thr, None)
+        both = conv(dict(d1), dict(d2), None, thr, res)
+        t12 = sum((F(x) for _, x in d1), F(0)) * sum((F(x) for _, x in d2), F(0))
+        theta = F(thr) if thr is not None else F(0)
+        if tot(full) != t12:
+            return f'un-pruned total {tot(full)} != product of totals {t12}'
+        if not (t12 - len(d1) * len(d2) * theta <= tot(pruned) <= t12):
+            return f'pruned total {tot(pruned)} outside [{t12} - {len(d1)}*{len(d2)}*{theta}, {t12}]'
+        if tot(both) != tot(pruned):
+            return f'rounding changed the total: {tot(both)} != {tot(pruned)}'
+        if res is not None and abs(mom(both) - mom(pruned)) > F(1, 2 * 10 ** res) * tot(pruned) + F(1, 10 ** 12):
+            return f'rounding moved the first moment by {float(abs(mom(both) - mom(pruned)))} > half a bin width x total'
+        return None
+
+    chk.oracle('ext_prune_round_bounds_convolve', ccases, o_prune_round,
+               nontrivial_fn=lambda c: len(c[0]) * len(c[1]) >= 2 and (c[3] or c[4] is not None), key_fn=lambda c: repr(c))
+
+    # elemental_total_with_floor: 1 - W*m*theta <= total <= 1, W = number of peaks that entered the rounds (counted on the code's own run)
+    def o_elem_floor(c):
+        el, n, neu = c
+        isos = (N if neu else M)[el]
+        d, W = {0: 1.0}, 0
+        for _ in range(n):
+            W += len(d)
+            d = isotope._convolve_distributions(d, dict(isos), None, 10e-9, None)
+        got = isotope._calculate_elemental_distribution(el, n, neu)
+        if got != d:
+            return 'stepwise re-run of the rounds differs from _calculate_elemental_distribution'
+        t = math.fsum(got.values())
+        s1 = math.fsum(x for _, x in isos) ** n
+        lo = s1 - W * len(isos) * 1e-8
+        if not (lo - 1e-9 <= t <= s1 + 1e-9):
+            return f'total {t!r} outside [{lo!r}, {s1!r}] (W={W}, m={len(isos)})'
+        return None
+
+    efl = []
+    for el in CHNOSP + HEAVY:
+        for neu in (False, True):
+            top = 60 if neu else {'Se': 5, 'Fe': 15, 'S': 40, 'Cl': 40, 'Br': 40}.get(el, 60)
+            for n in sorted(set([0, 1, 2, top] + [rng.randint(0, top) for _ in range(1 if quick else 6)])):
+                efl.append((el, n, neu))
+    chk.oracle('ext_elemental_floor_loss_bound', efl, o_elem_floor, nontrivial_fn=lambda c: c[1] >= 2, key_fn=lambda c: repr(c))
+
+    # final_threshold_loss_bound / final_threshold_keeps_max on isotopic_distribution
+    def o_final_thr(c):
+        f, thr, res = c
+        with warnings.catch_warnings():
+            warnings.simplefilter('ignore')
+            a = isotope.isotopic_distribution(dict(f), None, None, res)
+            b = isotope.isotopic_distribution(dict(f), None, thr, res)
+        ta, tb = math.fsum(x for _, x in a), math.fsum(x for _, x in b)
+        if not (ta - len(a) * thr - 1e-9 <= tb <= ta + 1e-9):
+            return f'total with threshold {tb!r} outside [{ta!r} - {len(a)}*{thr}, {ta!r}]'
+        if not any(x == 1.0 for _, x in b):
+            return 'the most abundant peak (relative abundance 1) was removed by the threshold'
+        if [p for p in a if p[1] >= thr] != b:
+            return 'thresholded pattern is not the un-thresholded one filtered'
+        return None
+
+    ftc = []
+    for _ in range(40 if quick else 400):
+        f = {e: rng.randint(0, 30) for e in rng.sample(CHNOSP, rng.randint(1, 4))}
+        ftc.append((f, rng.choice([0.0, 1e-6, 1e-3, 0.05, 0.5, 1.0]), rng.choice([0, 1, 2, 3])))
+    chk.oracle('ext_final_threshold_bounds', ftc, o_final_thr, nontrivial_fn=lambda c: sum(c[0].values()) >= 2, key_fn=lambda c: repr(c))
+
+    tick('ext prune/round bounds')
     reach.__exit__()
     chk.notes.append({'reach_of_modelled_functions': reach.report()})
     if not quick:
-        chk.leanchecker(['PeptVerif.Props.C14', 'PeptVerif.Lemmas.Isotope', 'PeptVerif.Lemmas.IsotopeMultinomial', 'PeptVerif.Model.Isotope', 'PeptVerif.Generated.IsotopesC14'])
+        chk.leanchecker(['PeptVerif.Props.C14', 'PeptVerif.Props.C14Ext', 'PeptVerif.Lemmas.IsotopePrune', 'PeptVerif.Lemmas.Isotope', 'PeptVerif.Lemmas.IsotopeMultinomial', 'PeptVerif.Model.Isotope', 'PeptVerif.Generated.IsotopesC14'])
     return chk.finish(classify)
 
 
